@@ -34,7 +34,7 @@ from vlib import core, engine_corr, genfw, initgen
 from vlib.core import q, unq
 
 PROPERTY = "C07"
-LEAN_MODS = ["AtomicaProofs.Properties.C07"]
+LEAN_MODS = ["AtomicaProofs.Properties.C07", "AtomicaProofs.Properties.C07Bridge"]
 THEOREMS = [
     "Atomica.C07.accept_sound",
     "Atomica.C07.accept_stocks",
@@ -69,6 +69,13 @@ THEOREMS = [
     "Atomica.C07.value_quotient",
     "Atomica.C07.value_step_agree",
     "Atomica.C07.value_step_differs",
+    # the closed loop's characteristic rule (Closed.charVal, C03/C06/C13) is the same rule as Init.valueStep / Init.value (C07Bridge.lean)
+    "Atomica.C07Bridge.closed_tol_eq",
+    "Atomica.C07Bridge.charVal_ratio",
+    "Atomica.C07Bridge.charVal_plain",
+    "Atomica.C07Bridge.ratioRule_eq_valueStep",
+    "Atomica.C07Bridge.ratioRule_eq_value_of",
+    "Atomica.C07Bridge.ratioRule_ne_value_iff",
 ]
 TRUSTED = [
     "np.linalg.lstsq (LAPACK) is an oracle: the candidate solution it returns is an input of the model; its quality decides only WHETHER a run is accepted",
